@@ -739,8 +739,9 @@ def run(ctx):
                     seen[json.dumps(e, sort_keys=True)] = e
             edits[fam] = [seen[k] for k in sorted(seen)]
         nr = 200 if q else 4000
-        g, tg = Gen(rng, metric="any"), TGen(rng)
-        gt = Gen(rng, metric="any", traj=True)
+        # (bounded numeric types off: ~10 % of those problems are rejected by the type checker at build time)
+        g, tg = Gen(rng, metric="any", bounded=False), TGen(rng, bounded=False)
+        gt = Gen(rng, metric="any", traj=True, bounded=False)
         for i in range(nr):
             r = rng.random()
             cls = "plain" if r < 0.7 else "cont" if r < 0.8 else "htn" if r < 0.9 else "ma"
